@@ -193,6 +193,16 @@ class World:
         self.o.observe(obs_sitems, "st.items")
         self.o.observe(obs_nested, "fac:v")
         self.o.on_trait_change(otc_plain, "plain")
+
+        def otc_log(new):
+            calls.append(("otc_log", type(new).__name__))
+            INJ.point("otc_handler")
+
+        def obs_log(ev):
+            calls.append(("obs_log", type(ev.new).__name__))
+        self.h = self.h + (otc_log, obs_log)
+        self.o.on_trait_change(otc_log, "log")
+        self.o.observe(obs_log, "log")
         self.o.on_trait_change(otc, "x")
         self.o.on_trait_change(otc2, "x")
         self.o.observe(obs, "x")
@@ -249,6 +259,13 @@ def adapter_factory(i, cls):
         INJ.point("adapter_factory_%d" % i)
         return cls(adaptee)
     return f
+
+
+class BadRepr:
+    def __repr__(self):
+        raise RuntimeError("repr raises")
+
+    __str__ = __repr__
 
 
 def filter_fn(name, ctrait):
@@ -315,6 +332,10 @@ SCENARIOS = {
                                       w.mgr.adapt(w.adaptee, P3)),
     "observe-register-match": lambda w: w.o.observe(
         _obs_handler, match(filter_fn).then(trait("v", optional=True))),
+    "observe-register-parallel-match": lambda w: w.o.observe(
+        _obs_handler, trait("plain") | match(filter_fn)),
+    "observe-unregister-parallel-match": None,
+    "assign-badrepr": lambda w: setattr(w.o, "log", BadRepr()),
     "observe-unregister-match": None,       # built below
 }
 
@@ -329,14 +350,28 @@ def _register_first(w):
     INJ.active = True
 
 
+def _unregister_par(w):
+    w.o.observe(_obs_handler, trait("plain") | match(filter_fn), remove=True)
+
+
+def _register_par_first(w):
+    INJ.active = False
+    w.o.observe(_obs_handler, trait("plain") | match(filter_fn))
+    INJ.active = True
+
+
 SCENARIOS["observe-unregister-match"] = _unregister
-PREPARE = {"observe-unregister-match": _register_first}
+SCENARIOS["observe-unregister-parallel-match"] = _unregister_par
+PREPARE = {"observe-unregister-match": _register_first,
+           "observe-unregister-parallel-match": _register_par_first}
 HANDLER_SITES = ("static_handler", "otc_handler", "observe_handler",
                  "static_items_handler", "observe_items_handler",
                  "anytrait_handler")
 
 
 def plain(v):
+    if isinstance(v, BadRepr):
+        return "<BadRepr>"
     if isinstance(v, HasTraits):
         return ("A", v.v) if isinstance(v, A) else "obj"
     if isinstance(v, (list, tuple)):
